@@ -8,12 +8,20 @@
    2. Sound: every accepted token sequence is a sentence of the embedded grammar (tree with the tokens
       as leaves, one production per interior node).
    3. Byte-for-byte regeneration is checked by the harness (go run ./generate on a scratch copy).
-   PARTIAL — 4. complete, with the documented disambiguation: every sentence of the documented grammar
-      is accepted and the tree is the one the precedence list dictates.  Not yet a Coq theorem (needs
-      lr_complete, see DESIGN.md appendix A); decided per explored token sequence by an exact Earley
-      recogniser for the documented grammar and an independent recursive-descent tree builder. *)
-From Coq Require Import String List Bool Arith NArith.
-From Verif Require Import Cfg.LR Cfg.LRSafe Cfg.Lalr.
+   4. Complete, with the documented disambiguation.  The disambiguation is written down once, as a
+      classification of parse trees (Cfg/EbnfDoc.v: juxtaposition binds tighter than `|`, juxtaposition
+      groups to the left, `|` to the right, handles are consumed greedily); a tree that can be classified
+      is "canonical".  For token sequences of ANY length:
+        - every canonical tree of the grammar is parsed: its leaves are accepted and the callbacks are
+          exactly its post-order (Cfg/LRComplete.v, certificate checked by the kernel on the regenerated
+          table);
+        - every tree the parser builds is canonical (Cfg/LRCanon.v, ditto);
+        - hence the accepted sequences are exactly the leaves of canonical trees, and a sequence has at most
+          one canonical tree: the disambiguation leaves no choice.
+      That the classification is the DOCUMENTED reading is cross-checked per explored sequence against an
+      independent recursive-descent reader written from the documentation (harness). *)
+From Coq Require Import String List Bool Arith NArith Lia.
+From Verif Require Import Cfg.LR Cfg.LRSafe Cfg.Lalr Cfg.LRComplete Cfg.LRCanon Cfg.EbnfDoc Cfg.EbnfCert.
 From VerifGen Require Import TableGo.
 Import ListNotations.
 Local Open Scope N_scope.
@@ -50,3 +58,89 @@ Proof.
   clear. generalize 0%nat. induction toks as [|a toks IH]; intros n; simpl; [reflexivity|]. f_equal. apply IH.
 Qed.
 Print Assumptions ebnf_parser_sound.
+
+(* ---- 4. exactly the documented, disambiguated language ---- *)
+
+(* t is a parse tree of the token sequence that respects the documented disambiguation *)
+Definition canonical_sentence (toks : list N) (t : tree) : Prop :=
+  wf_tree ebnf_grammar t /\ root ebnf_grammar t = NT ebnf_start /\
+  (exists k, classify ebnf_rules t = Some k) /\
+  leaves t = combine toks (seq 0 (length toks)).
+
+Theorem ebnf_parser_complete :
+  forall toks t, canonical_sentence toks t ->
+  forall fuel, (length (post t) < fuel)%nat ->
+    LR.run ebnf_grammar ebnf_table ebnf_eof ebnf_err_state toks EndOfInput fuel init = (post t, OAccept).
+Proof.
+  intros toks t [Hwf [Hroot [[k Hk] Hl]]].
+  exact (lr_complete _ _ _ _ _ _ _ _ _ toks ebnf_complete_check t k Hwf Hroot Hk Hl).
+Qed.
+Print Assumptions ebnf_parser_complete.
+
+Theorem ebnf_parser_builds_the_canonical_tree :
+  forall toks fin fuel tr, ~ In ebnf_eof toks ->
+    LR.run ebnf_grammar ebnf_table ebnf_eof ebnf_err_state toks fin fuel init = (tr, OAccept) ->
+    exists t, canonical_sentence toks t /\ tr = post t.
+Proof.
+  intros toks fin fuel tr Hn Hr.
+  destruct (lr_sound_init _ _ _ _ _ _ ebnf_table_safe toks fin Hn fuel tr Hr) as [t [Hb [Hwf [Hroot Hl]]]].
+  destruct (lr_builds_canonical _ _ _ _ _ _ _ _ _ _ toks fin ebnf_table_safe ebnf_canon_check Hn fuel tr Hr)
+    as [t' [k [Hb' Hk]]].
+  rewrite Hb in Hb'. injection Hb' as <-.
+  exists t. split; [repeat split; eauto|].
+  destruct (lr_callbacks_in_derivation_order _ _ _ _ _ _ toks fin fuel tr ebnf_table_safe Hn Hr) as [t2 [W2 [R2 [L2 P2]]]].
+  pose proof (run_prods_exist ebnf_grammar toks ebnf_table ebnf_eof ebnf_err_state fin fuel init) as Hp.
+  rewrite Hr in Hp. simpl in Hp.
+  rewrite (build_is_postorder ebnf_grammar toks tr Hp) at 1. rewrite Hb. simpl. apply app_nil_r.
+Qed.
+Print Assumptions ebnf_parser_builds_the_canonical_tree.
+
+Theorem ebnf_parser_accepts_exactly_the_disambiguated_grammar :
+  forall toks, ~ In ebnf_eof toks ->
+    ((exists fuel tr, LR.run ebnf_grammar ebnf_table ebnf_eof ebnf_err_state toks EndOfInput fuel init = (tr, OAccept))
+     <-> exists t, canonical_sentence toks t).
+Proof.
+  intros toks Hn. split.
+  - intros [fuel [tr Hr]].
+    destruct (ebnf_parser_builds_the_canonical_tree toks EndOfInput fuel tr Hn Hr) as [t [Ht _]]. eauto.
+  - intros [t Ht]. exists (S (length (post t))), (post t). apply ebnf_parser_complete; [exact Ht | lia].
+Qed.
+Print Assumptions ebnf_parser_accepts_exactly_the_disambiguated_grammar.
+
+Theorem the_disambiguation_leaves_no_choice :
+  forall toks t1 t2, canonical_sentence toks t1 -> canonical_sentence toks t2 -> t1 = t2.
+Proof.
+  intros toks t1 t2 [W1 [R1 [[k1 C1] L1]]] [W2 [R2 [[k2 C2] L2]]].
+  exact (canonical_unique ebnf_grammar ebnf_table ebnf_eof ebnf_err_state ebnf_start ebnf_rules ebnf_nul ebnf_first ebnf_V toks ebnf_complete_check t1 k1 t2 k2 W1 R1 C1 L1 W2 R2 C2 L2).
+Qed.
+Print Assumptions the_disambiguation_leaves_no_choice.
+
+(* non-vacuity: a canonical sentence with a juxtaposition, an alternation and a directive exists, and two
+   non-canonical readings are told apart *)
+Definition ex_toks : list N := [13; 17; 1; 17; 0; 17; 17; 2; 17; 2; 1; 14; 19; 1].
+     (* grammar x ; a = b c | d | ; @left "s" ; *)
+
+Example a_canonical_sentence_exists :
+  exists t, canonical_sentence ex_toks t /\ (20 <? length (post t))%nat = true.
+Proof.
+  assert (Hr : LR.run ebnf_grammar ebnf_table ebnf_eof ebnf_err_state ex_toks EndOfInput 100 init =
+               (fst (LR.run ebnf_grammar ebnf_table ebnf_eof ebnf_err_state ex_toks EndOfInput 100 init), OAccept))
+    by (vm_compute; reflexivity).
+  destruct (ebnf_parser_builds_the_canonical_tree ex_toks EndOfInput 100 _ ltac:(vm_compute; intuition discriminate) Hr)
+    as [t [Ht Hp]].
+  exists t. split; [exact Ht|]. rewrite <- Hp. vm_compute. reflexivity.
+Qed.
+
+Definition opnd (i : nat) : tree := Node 30 [Node 32 [Leaf 17 i]].
+Example forbidden_shapes_are_not_canonical :
+  (* b (c d): juxtaposition grouped to the right *)
+  classify ebnf_rules (Node 23 [opnd 0; Node 23 [opnd 1; opnd 2]]) = None /\
+  (* (b | c) d without brackets: alternation below juxtaposition *)
+  classify ebnf_rules (Node 23 [Node 28 [opnd 0; Leaf 2 1; opnd 2]; opnd 3]) = None /\
+  (* (b | c) | d: alternation grouped to the left *)
+  classify ebnf_rules (Node 28 [Node 28 [opnd 0; Leaf 2 1; opnd 2]; Leaf 2 3; opnd 4]) = None /\
+  (* the documented readings of the same token sequences *)
+  classify ebnf_rules (Node 23 [Node 23 [opnd 0; opnd 1]; opnd 2]) = Some 2 /\
+  classify ebnf_rules (Node 28 [opnd 0; Leaf 2 1; Node 23 [opnd 2; opnd 3]]) = Some 3 /\
+  classify ebnf_rules (Node 28 [opnd 0; Leaf 2 1; Node 28 [opnd 2; Leaf 2 3; opnd 4]]) = Some 3.
+Proof. vm_compute. repeat split; reflexivity. Qed.
